@@ -555,3 +555,37 @@ pub fn varint_boundary_history(r: &mut Rng, g: &mut G) -> Vec<Step> {
     steps.push(Step::Reopen { n: 0 });
     steps
 }
+
+/// writer history with repeated process deaths: after some operations the process dies having
+/// lost the last 0..6 storage operations of its last call, is restarted, and goes on
+pub fn multi_crash_history(r: &mut Rng, g: &mut G, n: usize) -> Vec<Step> {
+    let mut steps = vec![];
+    if r.chance(1, 2) {
+        // uniform single-block appends (equal-sized log entries) and crashes biased to lose exactly
+        // the oplog truncate that follows a header write: stale entries then stay behind newer
+        // ones and can line up with the end of the log once the header bit has cycled
+        for _ in 0..(n * 2) {
+            for _ in 0..r.range(1, 4) {
+                let blk = g.small_blk(1);
+                g.len += 1;
+                steps.push(Step::Append { n: 0, blk });
+            }
+            let back = *r.pick(&[1u32, 1, 1, 1, 0, 2, 3, 4, 5, 6]);
+            steps.push(Step::CrashRestart { n: 0, back });
+        }
+        steps.push(Step::Reopen { n: 0 });
+        return steps;
+    }
+    let (mix, _) = pick_mix(r);
+    for _ in 0..n {
+        let k = r.range(1, 3) as usize;
+        let mut chunk = writer_history(r, g, k, mix);
+        chunk.retain(|s| !matches!(s, Step::MakeReadOnly { .. }));
+        steps.extend(chunk);
+        if r.chance(2, 3) {
+            steps.push(Step::CrashRestart { n: 0, back: r.below(7) as u32 });
+        }
+    }
+    steps.push(Step::Reopen { n: 0 });
+    steps
+}
